@@ -36,14 +36,18 @@ add("C01", "other",
     "(the CALL/RET protocol: frame, closure stack, return address; the written output and the unread input are part of the world "
     "a statement acts on), and calls of user functions of any number of parameters whose body is a pure expression of the parameters and the "
     "globals (LExprCorrect.v: expressions with local variables in every context inside an activation; premise: the body's code lies "
-    "at the function's entry point, established by computation through sound checkers), "
+    "at the function's entry point - proved to be established by running the definition f = (ps) -> body itself (StmtDef.v, "
+    "C01_definition_extends_the_table), so that sessions of definitions and statements in any order are covered "
+    "(C01_sessions_with_definitions_partial)), "
     "compiled in value position and in discarded position (both code-generation strategies of each construct, negated-condition "
     "folding, jumps and back-patching, the last-value slot of a value-position while): for every fuel for which the fuelled "
     "semantics ssem - which Sem.eval computes with the same fuel - defines a statement, the compiled code run by the VM model "
     "ends with that value or error class and that world (globals, output written, input left), in REPL mode and file mode, over whole sessions "
-    "(C01_statement_sessions_partial; C01_statement_sem_vs_vm ties Sem.eval and the run through worlds that agree off the built-in "
-    "names, which the two sides bind to different representations). Not proved: user functions whose bodies are not expressions, "
-    " definitions as statements, exit, calls nested in expressions, generators, closures "
+    "(C01_statement_sessions_partial; C01_statement_sem_vs_vm ties Sem.eval and the run through worlds that agree off the function "
+    "names, which the two sides bind to different representations; C01_sessions_sem_vs_vm_partial (StmtMixed.v) does so over whole "
+    "sessions with definitions, between sem_tree and run_tree - the two functions this check evaluates next to the real interpreter - "
+    "from the start states of a real session). Not proved: user functions whose bodies are not expressions, "
+    " definitions inside blocks or functions, exit, calls nested in expressions, generators, closures "
     "(full statement: C01_compile_correct_statement). The property is "
     "decided each run by differential testing: generated sessions are run on the real code and compared, inside Coq, with Sem "
     "(property oracle) and with the compiler/VM model (correspondence; bytecode-level agreement of the compiler model was "
@@ -97,7 +101,12 @@ add("C08", "other",
     "property is proved on the compiler and VM models: a failing statement changes neither globals nor output and leaves the "
     "machine ready (C08_simple_failure_is_invisible); two machines with the same globals give the same result wherever the "
     "statement's code and data land (C08_simple_relocation); every later statement of every such history gives what the "
-    "semantics gives (C08_simple_sessions). Not proved in general: that code compiled at shifted offsets behaves the same "
+    "semantics gives (C08_simple_sessions). For the whole proven fragment of C01 (statements over globals with output and input, "
+    "calls of the leaf built-ins and of expression-bodied user functions, and the definitions of such functions; StmtTwin.v, "
+    "StmtModes.v): a statement that fails anywhere leaves the world of its meaning and a machine at top level, and from there every "
+    "later tree - statement or definition - behaves as on any machine that never saw it but holds the same global data, wherever "
+    "the two machines' code lies and whatever function values their tables hold (C08_failed_statement_then_any_session_partial, "
+    "C08_twin_sessions_with_definitions_partial). Not proved in general: that code compiled at shifted offsets behaves the same "
     "(C08_twin_sessions_statement). Decided each run by twin sessions on the real code: histories with parse errors and "
     "runtime errors of every class at depth 0-30, in loops, in suspended generators 1-3 levels deep, several in a row, "
     "against the same history without the failures; every later statement must agree. The failing histories are also "
@@ -260,7 +269,9 @@ add("C16", "other",
     "statements are each complete is handed to processInput statement by statement, each as if entered on its own; a final line "
     "break is irrelevant; bytes inside string literals and comments never count; and on the compiler and VM models, for the "
     "while-language over globals, value-mode compilation (REPL, -eval) and discarding compilation (file mode) leave the same "
-    "globals (C16_modes_bind_the_same_globals). Decided each run: the model against the real "
+    "globals (C16_modes_bind_the_same_globals), and whole sessions of such statements and of definitions of expression-bodied "
+    "functions run in the two modes stay related tree after tree: same values or errors (file mode shows no value), same global "
+    "data, output and input (C16_sessions_in_both_modes_partial, StmtModes.v). Decided each run: the model against the real "
     "node.Loop/FReader on ~600 arbitrary line sequences (recording parser); ~120 generated scripts (multi-line blocks, arrays and "
     "strings with braces/brackets/quotes/semicolons in strings and comments, with and without final line break) run by the built "
     "binary in file mode and as piped REPL and compared byte for byte with processInput per statement; ~45 single statements run "
